@@ -159,6 +159,43 @@ func (c *provCtx) eval(v ssa.Value) []pattern {
 				}
 			case "fmt.Sprintf":
 				if s, ok := constString(com.Args[0]); ok {
+					// a format of plain %s / %d / %v verbs is a concatenation of its constant pieces and
+					// its arguments
+					if len(com.Args) == 2 {
+						if el, isLit := sliceLitElems(com.Args[1]); isLit {
+							pieces, verbs, plain := splitFormat(s)
+							if plain && verbs == len(el) {
+								out := []pattern{{}}
+								for i, pc := range pieces {
+									if pc != "" {
+										for k := range out {
+											out[k] = append(out[k], atom{Kind: "const", S: pc})
+										}
+									}
+									if i < len(el) {
+										arg := el[i]
+										if mi, ok := arg.(*ssa.MakeInterface); ok {
+											arg = mi.X
+										}
+										var next []pattern
+										for _, a := range out {
+											for _, b := range c.eval(arg) {
+												next = append(next, append(append(pattern{}, a...), b...))
+												if len(next) > maxPatterns {
+													return []pattern{{{Kind: "opaque", S: "too-many-patterns"}}}
+												}
+											}
+										}
+										out = next
+									}
+								}
+								for k := range out {
+									out[k] = out[k].norm()
+								}
+								return out
+							}
+						}
+					}
 					return []pattern{{{Kind: "opaque", S: "Sprintf " + fmt.Sprintf("%q", s)}}}
 				}
 			}
@@ -574,4 +611,33 @@ func allModFuncs(p *Prog) []*ssa.Function {
 	}
 	sort.Slice(out, func(i, j int) bool { return shortName(out[i]) < shortName(out[j]) })
 	return out
+}
+
+// splitFormat: the constant pieces around the verbs of a format string; plain is false when a
+// verb other than %s %d %v (or a flag / width) occurs.  "%%" is a literal percent sign.
+func splitFormat(f string) (pieces []string, verbs int, plain bool) {
+	cur := ""
+	plain = true
+	for i := 0; i < len(f); i++ {
+		if f[i] != '%' {
+			cur += string(f[i])
+			continue
+		}
+		if i+1 >= len(f) {
+			return nil, 0, false
+		}
+		switch f[i+1] {
+		case '%':
+			cur += "%"
+		case 's', 'd', 'v':
+			pieces = append(pieces, cur)
+			cur = ""
+			verbs++
+		default:
+			plain = false
+		}
+		i++
+	}
+	pieces = append(pieces, cur)
+	return pieces, verbs, plain
 }
